@@ -282,3 +282,70 @@ Proof. exact (gen_narma_eq n order a1 a2 b c x0 u). Qed.
 Print Assumptions C20_generated_logistic_is_model.
 Print Assumptions C20_generated_henon_is_model.
 Print Assumptions C20_generated_narma_is_model.
+
+(* ================================================================================================================ *)
+(* Tie (T) for the HELPERS: to_forecasting (datasets/__init__.py) and one_hot_encode (datasets/_utils.py) as translated on this
+   run from their current source text (coq/gen/Gen_datasets.v, translator tools/vlib/py2coq_ds.py, over the Python/numpy
+   vocabulary of base/DSPrelude.v: slices with negative bounds incl. the -0 corner, round(), isinstance on test_size,
+   np.moveaxis as an axis view, np.unique / np.eye[...] / np.cumsum / np.split) ARE the models the theorems above are about.
+   [ts_model] maps the Python argument None | int | float to the model's TsNone | TsInt | TsRatio.                         *)
+From RV Require Import base.DSPrelude gen.Gen_datasets proofs.Gen_datasets_eq.
+
+(* every axis view, every forecast >= 0, every test_size, every array: no guard *)
+Theorem C20_generated_to_forecasting {arr row : Type} (ax : axis_view arr row) (a : arr) (f : nat) (ts : py_arg) :
+  GenDatasets.to_forecasting a f ax ts
+  = option_map (map (mv_out ax a)) (to_forecasting_rows f (ts_model ts) (mv_in ax a)).
+Proof. exact (gen_to_forecasting_view ax a f ts). Qed.
+
+(* time axis 0: C20_forecast_alignment, C20_split and C20_test_len are statements about the translated code *)
+Theorem C20_generated_to_forecasting_axis0 {A : Type} (s : list A) (f : nat) (ts : py_arg) :
+  GenDatasets.to_forecasting s f (axis0_view A) ts = to_forecasting_rows f (ts_model ts) s.
+Proof. exact (gen_to_forecasting_axis0 s f ts). Qed.
+
+(* 2-D series, time axis 0 / 1: C20_any_axis_partial and C20_any_axis_alignment transfer *)
+Theorem C20_generated_to_forecasting_2d {F : Type} `{Num F} (series : list (list F)) (f : nat) (ts : py_arg) :
+  GenDatasets.to_forecasting series f (axis0_view (list F)) ts = to_forecasting_2d 0 f (ts_model ts) series
+  /\ forall axis, axis <> 0 ->
+     GenDatasets.to_forecasting series f (axis1_view F) ts = to_forecasting_2d axis f (ts_model ts) series.
+Proof. exact (gen_to_forecasting_2d series f ts). Qed.
+
+(* one_hot_encode on a 1-D array / list of labels, on a 2-D array, and on a Python list of 1-D arrays, for every label order
+   that is transitive and antisymmetric (hypotheses of C20_one_hot): C20_one_hot*, C20_one_hot_2d, C20_one_hot_multi transfer *)
+Theorem C20_generated_one_hot {F : Type} `{Num F} {A : Type} (leb : A -> A -> bool) :
+  (forall a b c, leb a b = true -> leb b c = true -> leb a c = true) ->
+  (forall a b, leb a b = true -> leb b a = true -> a = b) ->
+  (forall labels : list A,
+     GenDatasets.one_hot_encode_arr leb (A1 labels)
+     = Some (A1 (fst (one_hot (F:=F) leb labels)), snd (one_hot (F:=F) leb labels))) /\
+  (forall rows : list (list A),
+     GenDatasets.one_hot_encode_arr leb (A2 rows)
+     = Some (match fst (one_hot_2d (F:=F) leb rows) with inl e => A1 e | inr e => A2 e end,
+             snd (one_hot_2d (F:=F) leb rows))) /\
+  (forall seqs : list (list A),
+     GenDatasets.one_hot_encode_seqs leb seqs
+     = Some (map A1 (fst (one_hot_multi (F:=F) leb seqs)), snd (one_hot_multi (F:=F) leb seqs))).
+Proof.
+  intros Htr Ha. exact (conj (gen_one_hot_1d leb Htr Ha) (conj (gen_one_hot_2d leb Htr Ha) (gen_one_hot_seqs leb Htr Ha))).
+Qed.
+
+(* non-vacuity: the translated code, executed (incl. the corners forecast = 0 and test_size = 0) *)
+Open Scope Q_scope.
+Example C20_generated_helpers_example :
+  GenDatasets.to_forecasting [0;1;2;3;4;5;6;7;8;9] 2 (axis0_view Q) (PyInt 2)
+    = Some [[0;1;2;3;4;5]; [6;7]; [2;3;4;5;6;7]; [8;9]]
+  /\ GenDatasets.to_forecasting [0;1;2;3;4;5;6;7;8;9] 2 (axis0_view Q) (PyFloat (1#4))
+    = Some [[0;1;2;3;4;5]; [6;7]; [2;3;4;5;6;7]; [8;9]]              (* round(2.5) = 2 *)
+  /\ GenDatasets.to_forecasting [0;1;2] 0 (axis0_view Q) (PyInt 0) = Some [[]; [0;1;2]]       (* a[:-0] is empty *)
+  /\ GenDatasets.to_forecasting [0;1;2] 1 (axis0_view Q) (PyFloat 1) = None
+  /\ GenDatasets.to_forecasting [[0;1;2;3;4];[5;6;7;8;9]] 2 (axis1_view Q) (PyInt 1)
+     = Some [[[0;1];[5;6]]; [[2];[7]]; [[2;3];[7;8]]; [[4];[9]]]
+  /\ GenDatasets.one_hot_encode_seqs (F:=Q) Z.leb [[3;1];[2];[1;1;3]]%Z
+     = Some ([A1 [[0;0;1];[1;0;0]]; A1 [[0;1;0]]; A1 [[1;0;0];[1;0;0];[0;0;1]]], [1;2;3]%Z)
+  /\ GenDatasets.one_hot_encode_arr (F:=Q) Z.leb (A2 [[3];[1]]%Z) = Some (A1 [[0;1];[1;0]], [1;3]%Z).
+Proof. vm_compute. repeat split; reflexivity. Qed.
+Close Scope Q_scope.
+
+Print Assumptions C20_generated_to_forecasting.
+Print Assumptions C20_generated_to_forecasting_axis0.
+Print Assumptions C20_generated_to_forecasting_2d.
+Print Assumptions C20_generated_one_hot.
